@@ -513,6 +513,24 @@ fn bam_roundtrip(tier: &str) -> Result<String, String> {
             }
         }
     }
+    // (e) the lazy records written again: bam::Record is an alignment record the writer accepts, and what it writes must read back as the
+    // same records (a record with more than 65535 CIGAR operations carries the CG field in its raw data)
+    {
+        let r = std::panic::catch_unwind(|| -> Result<Vec<sam::alignment::RecordBuf>, String> {
+            let mut rd = noodles_bam::io::Reader::from(&data[..]); let h = rd.read_header().map_err(|e| format!("read_header: {e}"))?;
+            let mut w2 = noodles_bam::io::Writer::from(Vec::new()); w2.write_header(&h).map_err(|e| format!("write_header: {e}"))?;
+            let mut r = noodles_bam::Record::default(); let mut n = 0;
+            loop { match rd.read_record(&mut r) { Ok(0) => break, Ok(_) => { w2.write_alignment_record(&h, &r).map_err(|e| format!("the writer refuses lazy record {n}, which it wrote itself: {e}"))?; n += 1; } Err(e) => return Err(format!("read_record fails at record {n}: {e}")) } }
+            let data2 = w2.get_ref().clone();
+            let mut rd = noodles_bam::io::Reader::from(&data2[..]); let h = rd.read_header().map_err(|e| format!("read_header (second file): {e}"))?;
+            let mut out = Vec::new(); let mut b = sam::alignment::RecordBuf::default();
+            loop { match rd.read_record_buf(&h, &mut b) { Ok(0) => break, Ok(_) => out.push(b.clone()), Err(e) => return Err(format!("a file written from lazy records does not read back: read_record_buf fails at record {} ({}): {e}", out.len(), accepted.get(out.len()).map(|(k, _)| k.as_str()).unwrap_or("?"))) } }
+            Ok(out) });
+        match r { Err(_) => { fails.entry("lazy rewrite panics".into()).or_insert_with(|| "bam round trip: writing the lazy records again PANICS".into()); }
+            Ok(Err(e)) => { fails.entry("lazy rewrite fails".into()).or_insert_with(|| format!("bam round trip: lazy records written again: {e}")); }
+            Ok(Ok(out)) => { if out.len() != accepted.len() { fails.entry("lazy rewrite count".into()).or_insert_with(|| format!("bam round trip: lazy records written again: {} records read back, {} written", out.len(), accepted.len())); }
+                if let Some(i) = accepted.iter().zip(out.iter()).position(|((_, a), b)| a != b) { fails.entry("lazy rewrite differs".into()).or_insert_with(|| format!("bam round trip [{}]: a lazy record written again reads back different; first such record #{i}: wrote {} / read {}", accepted[i].0, short(&accepted[i].1), short(&out[i]))); } } }
+    }
     // (d) the stored bin of every record (raw walk of the writer's bytes, independent of the library): SAMv1 section 4.2 — reg2bin(pos, end) of
     // the 0-based half-open span, a placed record without reference span (CIGAR '*', or only S/I/H/P) counting as one base; 4680 = reg2bin(-1, 0)
     // for an unplaced one.  Only stated for coordinates below 2^29.
